@@ -1,5 +1,6 @@
 import MobiusModel.Transfers
 import MobiusModel.DownloadRoots
+import MobiusModel.DownloadNames
 import MobiusModel.RWLockFlat
 import MobiusModel.Generated.LockNesting
 import MobiusModel.Generated.TransferRoots
@@ -336,5 +337,74 @@ example : stuck (initial ([[false, false, false], [false], [false, false], [true
 example : (initial [[true, true].flatMap methodProg]) = [{ prog := [.lock, .unlock, .lock, .unlock] }] := by decide
 
 end StatsLock
+
+/-! ### Wave e: the file a download serves for a LISTED name is the listed entry itself
+
+  "All representable file names" includes the names whose Mac Roman wire bytes happen to be well-formed UTF-8
+  (`√©` = C3 A9, `¬©` = C2 A9, `‚Äì` = E2 80 93 …), in folders that also hold an entry spelled like the UTF-8
+  reading of those bytes.  The path decode is `decodeStr` for ALL byte strings (`DlNames.resolve`): there is no
+  case distinction on what the bytes look like. -/
+namespace Names
+open DlNames PathStr
+
+/-- Clause "the file" for listed names: in any folder with distinct entry names, the entry served for a name the
+    file list handed out is the entry the list handed it out for — no hypothesis on the wire bytes. -/
+theorem listed_name_serves_listed_entry (d : Dir) (hd : d.names.Nodup) (m : Bytes) (f : StoredFile)
+    (h : (m, f) ∈ listed d) : serve d m = some f := by
+  obtain ⟨n, hn, he⟩ := mem_listed d m f h
+  unfold serve
+  rw [resolve_listed n m he]
+  exact lookup_of_mem d hd n f hn
+
+/-- `dec (enc n) = n` at the level of entries, stated with the ambiguity spelled out: the wire bytes `m` of the
+    entry `n` are well-formed UTF-8 AND the folder holds a decoy `g` whose on-disk name is those very bytes — the
+    download still is about `f`. -/
+theorem listed_name_ambiguous (d : Dir) (hd : d.names.Nodup) (n m : Bytes) (f g : StoredFile)
+    (hn : (n, f) ∈ d) (he : encStr n = some m) (_hu : utf8Valid m = true) (_hg : (m, g) ∈ d) :
+    serve d m = some f := by
+  unfold serve
+  rw [resolve_listed n m he]
+  exact lookup_of_mem d hd n f hn
+
+/-- Reply and stream for a listed name: the control request is granted with the reply computed from the listed
+    entry, and the transfer connection carries the listed entry's stream (so every clause proved above for
+    `downloadReply f` / `downloadStream f` holds with `f` = the listed entry). -/
+theorem listed_name_download (root : Bytes) (d : Dir) (hd : d.names.Nodup) (m : Bytes) (f : StoredFile)
+    (h : (m, f) ∈ listed d) (rq : DlRequest) :
+    ∃ p, DlRoots.handleDownload (storeOf root d) { serverRoot := root } m rq = some (downloadReply f rq, p) ∧
+      DlRoots.serveTransfer (storeOf root d) p = some (downloadStream f rq) := by
+  have hs := listed_name_serves_listed_entry d hd m f h
+  refine ⟨{ root := root, path := m, rq := rq }, ?_, ?_⟩
+  · simp [DlRoots.handleDownload, DlRoots.Sess.root, storeOf, hs]
+  · simp [DlRoots.serveTransfer, storeOf, hs]
+
+/-- What the theorems exclude: a resolution that keeps names which "already are UTF-8" serves the DECOY whenever
+    one exists (so it is not the code's resolution on any such folder with `g ≠ f`). -/
+theorem skipping_resolution_serves_decoy (d : Dir) (hd : d.names.Nodup) (m : Bytes) (g : StoredFile)
+    (hu : utf8Valid m = true) (hg : (m, g) ∈ d) : serveSkipping d m = some g := by
+  unfold serveSkipping resolveSkipping
+  rw [if_pos hu]
+  exact lookup_of_mem d hd m g hg
+
+/-- Non-vacuity on the bytes C3 A9: `√©` (E2 88 9A C2 A9 on disk) is listed as C3 A9, which is well-formed UTF-8
+    (it reads `é`) and decodes back to `√©`. -/
+example : encStr [0xE2, 0x88, 0x9A, 0xC2, 0xA9] = some [0xC3, 0xA9] := by decide
+example : utf8Valid [0xC3, 0xA9] = true := by decide
+example : resolve [0xC3, 0xA9] = [0xE2, 0x88, 0x9A, 0xC2, 0xA9] := by decide
+example : utf8Valid [0x8E] = false ∧ utf8Valid [0xE2, 0x80, 0x93] = true ∧ utf8Valid [0xC3, 0x2E] = false ∧ utf8Valid [0xE0, 0x80, 0x80] = false := by decide
+
+/-- The folder {`√©` ↦ 3 bytes, `é` ↦ 1 byte}: both are listed (as C3 A9 and 8E); the name C3 A9 serves the
+    3-byte file under the code's resolution and the 1-byte decoy under the skipping one. -/
+def exampleDir : Dir :=
+  [([0xE2, 0x88, 0x9A, 0xC2, 0xA9], { name := [0xE2, 0x88, 0x9A, 0xC2, 0xA9], data := [1, 2, 3] }),
+   ([0xC3, 0xA9], { name := [0xC3, 0xA9], data := [9] })]
+
+example : exampleDir.names.Nodup := by decide
+example : (listed exampleDir).map (·.1) = [[0xC3, 0xA9], [0x8E]] := by decide
+example : (serve exampleDir [0xC3, 0xA9]).map (·.data) = some [1, 2, 3] := by decide
+example : (serve exampleDir [0x8E]).map (·.data) = some [9] := by decide
+example : (serveSkipping exampleDir [0xC3, 0xA9]).map (·.data) = some [9] := by decide
+
+end Names
 
 end Mobius.C08
